@@ -221,6 +221,37 @@ def run_shape(chk, ns, nq, np_, nv, n_sym_T, acoustic_zero=True, tgrid="T0-first
                 chk.harness_error("symbolic result does not reproduce the real float run (rel %.3g) at %s" % (worst, tag))
         except Exception as e:
             chk.note("validation run raised %r" % (e,))
+    # corner points of the stated ranges (lowest temperatures, highest frequencies): the real float run must stay finite
+    # and agree with the symbolic result evaluated there (IEEE hazards proper are C12's subject; this is the encoding
+    # validation of stage R(b) taken at the corners)
+    if tgrid == "T0-first" and acoustic_zero and nq == 2:
+        for Tc, wc in ((0.5, 1500.0), (2.0, 1500.0), (3000.0, 30.0)):
+            pt = dict(point)
+            for nme in ctx.vars:
+                if nme.startswith("T") and nme[1:].isdigit():
+                    pt[nme] = Tc
+                if nme.startswith("w_"):
+                    pt[nme] = wc * (0.9 + 0.1 * (hash(nme) % 7) / 7.0)
+            for nme in [n_ for n_ in pt if n_.startswith(("exp!", "inv!", "pexp!"))]:
+                pt.pop(nme)
+            c = PC.concretise_duck(d, pt)
+            with numpy.errstate(all="ignore"):
+                try:
+                    L = ns.LongitudinalElasticModulusPhononContribution(c, (fe_i, fe_i))
+                    arr = numpy.asarray(L.value_isothermal, dtype=float)
+                except Exception as e:
+                    chk.violation("corner:raises", "real class raises %s at T=%g K, omega~%g cm^-1" % (type(e).__name__, Tc, wc), dict(T=Tc, omega=wc))
+                    break
+            bad = None
+            for idx in numpy.ndindex(*arr.shape):
+                want = Sym.of(res["long_iso"][idx]).evalf(dict(pt))
+                if want == want and abs(want) != float("inf") and not (PC.rel_diff(float(arr[idx]), want, floor=1e-6 * abs(want) + 1e-300) < 1e-6):
+                    bad = (idx, float(arr[idx]), want)
+            chk.validation_points += 1
+            if bad:
+                chk.violation("corner:T=%g" % Tc, "at T=%g K, omega~%g cm^-1 the isothermal value of the real class is %r but the free-energy "
+                              "derivative gives %.6g" % (Tc, wc, bad[1], bad[2]), dict(T=Tc, omega=wc, index=list(bad[0])))
+                break
 
 
 def constants_side_check(chk, ns):
